@@ -18,11 +18,13 @@ import (
 	"math"
 	"math/rand"
 	"os"
+	"strconv"
 	"strings"
 	"time"
 	"unicode/utf8"
 
 	"github.com/whoisnian/glb/logger"
+	"verif/harness/internal/sites"
 	"verif/harness/internal/vio"
 )
 
@@ -335,11 +337,24 @@ func runStrings(out, tier string, rng *rand.Rand) {
 		if viaWith {
 			l = l.With("w", 1).WithGroup("g")
 		}
-		for _, f := range weirdCallers {
+		for i, f := range weirdCallers {
 			c.writes = nil
 			f(l)
 			t, one, head := tail(c, "INFO")
-			w.Put(map[string]any{"mode": "source", "in": []int{}, "pos": map[bool]string{false: "plain", true: "derived"}[viaWith], "tail": t, "onewrite": one, "head": head})
+			w.Put(map[string]any{"mode": "source", "in": vio.Ints(weirdSites[i]), "kv": true, "pos": map[bool]string{false: "plain", true: "derived"}[viaWith], "tail": t, "onewrite": one, "head": head})
+			n++
+		}
+		// every output method of Logger, from call sites with known file and line (package sites)
+		for _, st := range sites.Sites {
+			c2 := &capture{}
+			l2 := logger.New(logger.NewTextHandler(c2, logger.NewOptions(logger.LevelDebug, false, true)))
+			if viaWith {
+				l2 = l2.With("w", 1).WithGroup("g")
+			}
+			st.Call(l2)
+			t, one, head := tail(c2, st.Level)
+			w.Put(map[string]any{"mode": "source", "in": vio.Ints(st.File + ":" + strconv.Itoa(st.Line)), "kv": !strings.HasSuffix(st.Method, "f"), "method": st.Method,
+				"pos": map[bool]string{false: "plain", true: "derived"}[viaWith], "tail": t, "onewrite": one, "head": head})
 			n++
 		}
 	}
